@@ -266,6 +266,9 @@ PROJECT = {
     'md.py': 'from mc import q\n',
     'ma.py': 'from mb import *\nfrom_a = 1\n',
     'mb.py': 'from ma import *\nfrom_b = 2\n',
+    # a ring of star imports whose modules also import a name from each other that none of them defines
+    'ra.py': 'from rb import *\nfrom rb import ringx\nown_ra = 1\n',
+    'rb.py': 'from ra import *\nfrom ra import ringx\nown_rb = 2\n',
     'good.py': 'import good2\nvalue = good2.other\n',
     'good2.py': 'import good\nother = good\n',
     'badsyntax.py': 'def broken(:\n',
@@ -283,6 +286,12 @@ pk.sub.thing
 pk.thing
 from ma import *
 from_a
+from ra import ringx
+ringx
+ringx.attr
+import rb
+rb.ringx
+rb.own_ra
 '''
 
 
